@@ -542,8 +542,9 @@ int main(int argc, char** argv) {
                "order / disjointness / each range spells one group that re-parses to the same reference, Parse + ToString + re-Parse of every group; texts with a '{' inside a group are run but the list equality is not asserted";
   } else if (opt.mode == "resolve") {
     const int T = static_cast<int>(opt.num("tokens", opt.thorough() ? 5 : 4));
-    // sequences longer than `fullctx` tokens are resolved under the multibyte and ascii contexts only (cost)
+    // sequences longer than `fullctx` tokens are resolved under the first `topctx` contexts of (multibyte, ascii, empty) only (cost)
     const int F = static_cast<int>(opt.num("fullctx", T));
+    const size_t topCtx = static_cast<size_t>(std::max(1L, std::min(3L, opt.num("topctx", 2))));   // contexts used above `fullctx`
     const std::vector<size_t> ctxOrder = { 1, 0, 2 };   // multibyte, ascii, empty
     res.rep = run_sharded(opt, "resolve", [&](Ctx& c) {
       FaultProbe probe;
@@ -553,7 +554,7 @@ int main(int argc, char** argv) {
       for (int len = 0; len <= T && !c.stop(); ++len) {
         idx.assign(static_cast<size_t>(len), 0);
         while (true) {
-          if (!redundant_tokenisation(idx)) for (size_t k = 0; k < (len <= F ? contexts.size() : size_t{ 2 }); ++k) { const size_t ci = ctxOrder[k]; if (c.take()) resolve_case(c, probe, join_tokens(idx), contexts[ci], *hctx[ci]); }
+          if (!redundant_tokenisation(idx)) for (size_t k = 0; k < (len <= F ? contexts.size() : topCtx); ++k) { const size_t ci = ctxOrder[k]; if (c.take()) resolve_case(c, probe, join_tokens(idx), contexts[ci], *hctx[ci]); }
           int p = len - 1;
           while (p >= 0 && ++idx[static_cast<size_t>(p)] == static_cast<int>(kTokens.size())) { idx[static_cast<size_t>(p)] = 0; --p; }
           if (p < 0) break;
@@ -562,7 +563,7 @@ int main(int argc, char** argv) {
       c.rep.count("fault_probes", probe.probes);
     }, &ri);
     res.completed_bound = "all sequences of <= " + std::to_string(std::min(T, F)) + " tokens over a " + std::to_string(kTokens.size()) + "-token alphabet x 3 term contexts" +
-                          (T > F ? " + all sequences of " + std::to_string(F + 1) + ".." + std::to_string(T) + " tokens x 2 term contexts (multibyte, ascii)" : "");
+                          (T > F ? " + all sequences of " + std::to_string(F + 1) + ".." + std::to_string(T) + " tokens x " + (topCtx == 1 ? "the multibyte term context" : topCtx == 2 ? "2 term contexts (multibyte, ascii)" : "3 term contexts") : "");
     res.alphabet = tokenAlphabet + "   contexts: ascii (X1=Test, X2=cat with manual sing,datv form, X4 empty, X3 missing; default processor) | multibyte (X1 2 code points, X2 17 code points, marking processor) | empty (X1,X3 missing, X2 with empty manual form, X4 empty)";
     res.rule = "case = (text, context), each text once (redundant tokenisation [@][{] left out); non-trivial = >= 1 reference; per case: Resolve output byte-for-byte vs segment model, per reference fields / range / resolution / range delimits resolution, OutputRefs(resolved) = canonical input, "
                "ManagedText Raw/Str/Referals, TranslateRaw x3 translators + UpdateFrom; cases whose ExtractAll already differs from the grammar are reported once and skipped downstream";
